@@ -1,7 +1,114 @@
-import PydapModel.DdsText
+/-
+  C07 — dataset structure survives the DDS: print → parse → print.
+
+  All statements are about the character-level model `PydapModel/DdsText.lean` of `responses/dds.py`
+  (`printDs`) and `parsers/dds.py` + `SimpleParser` (`parseDds`), for every tree, every nesting, every
+  extent; no bounds.  `WFds` is the property's domain: node names are quoted names without `/`
+  (`NameOk`: non-empty, characters of `name_regexp`), dimension names likewise, extents ≥ 0, sibling
+  names distinct, grids non-empty.  The DAP2 type of every variable is whatever the generated
+  `NUMPY_TO_DAP2_TYPEMAP` says (`printDs d = .ok s` means every dtype is in the table).
+-/
+import Proofs.DdsFixpoint
 namespace Pydap.C07
 open Pydap Pydap.Dds
 
-theorem C07_stub : lstrip [' ', 'a'] = ['a'] := by decide
+/-- Parsing the printed DDS of any well-formed dataset succeeds and yields the tree `normDs d`:
+    same kinds, names and order (`normT` is a structure-preserving map), parser dtype of the declared
+    DAP2 type, the declared extents and dimension names. -/
+theorem C07_parse_print (d : Dataset) (s : Text) (hwf : WFds d) (hp : printDs d = .ok s) :
+    parseDds s = .ok (normDs d) :=
+  parse_print d s hp hwf
+
+/-- What `norm` does to a base variable outside sequences whose dimension names (if any) are one per
+    extent: name and shape are kept, dimension names are kept, an unnamed 1-d array gets its own
+    name as dimension name, and the dtype becomes the parser dtype of its DAP2 type. -/
+theorem C07_norm_base (b : BaseV) (h : b.dims = [] ∨ b.dims.length = b.shape.length) :
+    (normBase b 0).name = b.name ∧ (normBase b 0).shape = b.shape ∧ (normBase b 0).dt = normTy b.dt ∧
+    (normBase b 0).dims = (if b.dims ≠ [] then b.dims else if b.shape.length = 1 then [b.name] else []) := by
+  unfold normBase
+  simp only [List.drop_zero]
+  by_cases h1 : b.dims ≠ []
+  · have hl : b.dims.length = b.shape.length := by
+      rcases h with h | h
+      · exact absurd h h1
+      · exact h
+    rw [if_pos h1, if_pos h1]
+    refine ⟨rfl, ?_, rfl, ?_⟩
+    · exact List.map_snd_zip (by omega)
+    · exact List.map_fst_zip (by omega)
+  · rw [if_neg h1, if_neg h1]
+    by_cases h2 : b.shape.length = 1
+    · rw [if_pos h2, if_pos h2]
+      refine ⟨rfl, rfl, rfl, ?_⟩
+      match hs : b.shape, h2 with
+      | [n], _ => simp
+    · rw [if_neg h2, if_neg h2]
+      exact ⟨rfl, rfl, rfl, rfl⟩
+
+/-- Text fixpoint, full statement: FALSE for the code as it exists. `dds()` strips one leading extent
+    per enclosing Sequence from whatever shape a variable has; the parsed dataset already lacks it. -/
+theorem C07_fixpoint_refuted : ¬ (∀ d : Dataset, printDs (normDs d) = printDs d) :=
+  fun h => seqArrayWitness_not_fixpoint (h seqArrayWitness)
+
+/-- Text fixpoint under the exact guard: no base variable below `k > 0` sequences has more than `k`
+    extents (sequence members are columns).  No other hypothesis: names, types, extents arbitrary. -/
+theorem C07_fixpoint_partial (d : Dataset) (h : ColsL d.kids 0) : printDs (normDs d) = printDs d :=
+  printDs_norm d h
+
+/-- print → parse → print reproduces the text exactly (under the same guard). -/
+theorem C07_print_parse_print_partial (d : Dataset) (s : Text) (hwf : WFds d) (hc : ColsL d.kids 0)
+    (hp : printDs d = .ok s) : ∃ d', parseDds s = .ok d' ∧ printDs d' = .ok s :=
+  ⟨normDs d, parse_print d s hp hwf, by rw [printDs_norm d hc, hp]⟩
+
+theorem C07_print_parse_print_refuted :
+    ¬ (∀ (d : Dataset) (s : Text), WFds d → printDs d = .ok s → ∃ d', parseDds s = .ok d' ∧ printDs d' = .ok s) := by
+  intro h
+  cases hp : printDs seqArrayWitness with
+  | error e =>
+    have := seqArrayWitness_not_fixpoint
+    -- the witness prints fine
+    revert hp
+    have l1 : lookup Gen.NUMPY_TO_DAP2_TYPEMAP (dtypeChar ['h']) = some "Int16".toList := by decide
+    simp [seqArrayWitness, printDs, printL, printT, printBase, l1]
+  | ok s =>
+    obtain ⟨d', h1, h2⟩ := h seqArrayWitness s seqArrayWitness_wf hp
+    have h3 := parse_print seqArrayWitness s hp seqArrayWitness_wf
+    rw [h3] at h1
+    have : d' = normDs seqArrayWitness := (Except.ok.inj h1).symm
+    subst this
+    exact seqArrayWitness_not_fixpoint (by rw [h2, hp])
+
+/-! ### non-vacuity -/
+
+/-- a dataset with a quoted name, a named 2-d array, an unnamed 1-d array, a structure, a sequence column
+    and a grid is in the domain of every theorem above -/
+def sample : Dataset :=
+  ⟨"my%20ds".toList,
+   [.base ⟨"a%20b".toList, ['f'], [2, 3], ["x".toList, "y".toList]⟩,
+    .base ⟨['c'], ['i'], [4], []⟩,
+    .struct ['S'] [.base ⟨['u'], ['U'], [2], []⟩],
+    .seq ['Q'] [.base ⟨['i'], ['h'], [7], []⟩],
+    .grid ['G'] [⟨"arr".toList, ['d'], [2], [['x']]⟩, ⟨['x'], ['d'], [2], [['x']]⟩]]⟩
+
+example : WFds sample := by
+  simp [WFds, sample, WFL, WFT, BaseOk, NameOk, Tmpl.name]
+  decide
+
+example : ColsL sample.kids 0 := by
+  simp [sample, ColsL, ColsT, ColsB]
+
+example : ∃ s, printDs sample = .ok s := by
+  have l1 : lookup Gen.NUMPY_TO_DAP2_TYPEMAP (dtypeChar ['f']) = some "Float32".toList := by decide
+  have l2 : lookup Gen.NUMPY_TO_DAP2_TYPEMAP (dtypeChar ['i']) = some "Int32".toList := by decide
+  have l3 : lookup Gen.NUMPY_TO_DAP2_TYPEMAP (dtypeChar ['U']) = some "String".toList := by decide
+  have l4 : lookup Gen.NUMPY_TO_DAP2_TYPEMAP (dtypeChar ['h']) = some "Int16".toList := by decide
+  have l5 : lookup Gen.NUMPY_TO_DAP2_TYPEMAP (dtypeChar ['d']) = some "Float64".toList := by decide
+  simp [sample, printDs, printL, printT, printGrid, printBases, printBase, l1, l2, l3, l4, l5]
+
+example : ∃ b : BaseV, (b.dims = [] ∨ b.dims.length = b.shape.length) ∧ b.shape.length = 1 :=
+  ⟨⟨['c'], ['i'], [4], []⟩, Or.inl rfl, rfl⟩
+
+-- the witness of the refuted statements is itself well-formed and prints
+example : WFds seqArrayWitness := seqArrayWitness_wf
 
 end Pydap.C07
